@@ -40,6 +40,7 @@ let variant : fixes =
 let outcome_of_char = function
   | 'k' -> OStatus (z_of_int 200) | 'c' -> OStatus (z_of_int 201) | 'n' -> OStatus (z_of_int 404)
   | 's' -> OStatus (z_of_int 503) | 't' -> OTransport | 'b' -> OBody
+  | '0' .. '6' | 'A' .. 'G' -> OBody   (* the body breaks after some bytes, status 200 / 503: any read error is a failed delivery *)
   | c -> raise (Malformed "outcome")
 
 let parse_op (s : string) : op =
@@ -116,9 +117,9 @@ let parse_status s =
   if s = "-" then SNone else if s = "TE" then SOut OTransport else if s = "BE" then SOut OBody
   else if Str.string_match re_status s 0 then begin
     let c = Str.matched_group 1 s and b = Str.matched_group 2 s in
-    if (c = "200") <> (b = "ok") then raise (Malformed "status-body");
+    if (c = "200") <> (b = "ok") then SOut (OStatus (z_of_int (-1))) else
     SOut (OStatus (z_of_string c)) end
-  else raise (Malformed "status")
+  else SOut (OStatus (z_of_int (-1)))   (* a status text that is none of the canonical ones: equal to nothing the model can produce -> class last-emit *)
 let parse_view s : view =
   if Str.string_match re_view s 0 then begin
     let e = Str.matched_group 1 s and a = Str.matched_group 2 s and st = Str.matched_group 3 s and t = Str.matched_group 4 s in
@@ -184,15 +185,33 @@ let spec input obs =
       let steps = (match Stdlib.List.rev steps with
           | last :: rest when String.length last >= 2 && String.sub last 0 2 = "DB" -> Stdlib.List.rev rest
           | _ -> raise (Malformed "no-db-dump")) in
+      if Stdlib.List.length steps <> Stdlib.List.length ops then raise (Malformed "step-count");
+      (* a step the harness had to give up on (deadline) or could not perform: judge the steps before it first *)
+      let has_prefix pre st = String.length st >= String.length pre && String.sub st 0 (String.length pre) = pre in
+      let markers = ["OP-TIMEOUT"; "SKIPPED"; "DEAD"; "REOPEN-ERROR"; "PANIC"; "BAD-OP"] in
+      let is_marker st = Stdlib.List.exists (fun m -> has_prefix m st) markers in
+      let rec cutoff acc = function
+        | [] -> (Stdlib.List.rev acc, None)
+        | st :: rest ->
+          if has_prefix "NOTIFY-BLOCKED|" st then
+            (* the event never came back: what did arrive is judged as the step's outcome, then the case ends *)
+            (Stdlib.List.rev (("-" ^ String.sub st 14 (String.length st - 14)) :: acc), Some "notify-blocked the delivery of one event did not come back within the deadline")
+          else if is_marker st then
+            (Stdlib.List.rev acc, Some ("op-blocked " ^ (match split_on '|' st with m :: _ -> m | [] -> st)))
+          else cutoff (st :: acc) rest in
+      let (steps, blocked) = cutoff [] steps in
+      let rec take n l = if n <= 0 then [] else match l with [] -> [] | x :: r -> x :: take (n - 1) r in
+      let ops = take (Stdlib.List.length steps) ops in
       let sobs = Stdlib.List.map parse_step steps in
-      if Stdlib.List.length sobs <> Stdlib.List.length ops then raise (Malformed "step-count");
       Stdlib.List.iter (fun ((_, _), gs) -> if Stdlib.List.length gs <> Stdlib.List.length universe then raise (Malformed "gets")) sobs;
       let fs = oracle mt prod ops sobs in
-      (match verdict fs with
-       | None -> "OK"
-       | Some (n, c) ->
-         Printf.sprintf "FAIL %s step=%s all=[%s]" (class_name c) (dec_of_z n)
-           (String.concat "," (Stdlib.List.map (fun (n, c) -> dec_of_z n ^ ":" ^ class_name c) fs)))
+      (match verdict fs, blocked with
+       | None, None -> "OK"
+       | None, Some b -> "FAIL " ^ b ^ " step=" ^ string_of_int (Stdlib.List.length steps + (if has_prefix "notify" b then 0 else 1))
+       | Some (n, c), _ ->
+         Printf.sprintf "FAIL %s step=%s all=[%s]%s" (class_name c) (dec_of_z n)
+           (String.concat "," (Stdlib.List.map (fun (n, c) -> dec_of_z n ^ ":" ^ class_name c) fs))
+           (match blocked with Some b -> " then " ^ b | None -> ""))
     with
     | Malformed ("header-name" | "header-value" as w) -> "FAIL auth-header unrecognised " ^ w
     | Malformed "post-url" -> "FAIL post-wrong-url a POST went to an address that is none of the registered url strings"
